@@ -286,6 +286,7 @@ func (f *Frame) closeLoop(li *loopInfo, st *State, cond string) {
 		for _, tr := range li.lc.Transitions {
 			tev := *ev
 			tev.prev = li.hdrState
+			tev.loopBlocks = li.blocks
 			tev.prevVars = map[string]SVal{}
 			for k, v := range f.loopEval(li, li.hdrState, cond).vars {
 				if strings.HasPrefix(k, "$") {
